@@ -95,7 +95,7 @@ func c06(args []string) error {
 					return
 				}
 				seen[key] = true
-				e := obj{"op": "rt", "doc": r.rawAST, "b": r.b, "opts": (k + r.b) % len(c06Opts), "table": k % len(tokenTables), "text": clip(text, 300), "output": clip(out1, 400)}
+				e := obj{"op": "rt", "doc": r.rawAST, "b": r.b, "opts": (k + r.b) % len(c06Opts), "table": k % len(tokenTables), "text": clip(text, 6000), "output": clip(out1, 6000)}
 				e["valid"] = json.Valid([]byte(out1))
 				outAST, terr := tokenize(out1, ro.table)
 				if terr != nil {
